@@ -944,6 +944,10 @@ func c03Gen(ctx *core.Ctx) {
 	// --- (L) distinct keys carrying the same kid, one after the other in one process
 	c03GenKidSeq(ctx)
 
+	// --- (M) chosen padding: pad value x run length around every boundary, behind unpadding,
+	// AES-CBC and AES-CBC-HMAC decryption
+	c03GenPadValues(ctx)
+
 	// --- (A) the sentinel grid: key sizes x nonce lengths 0..32 x tag lengths 0..32
 	for _, alg := range algs {
 		si := c03Sym[alg]
@@ -1321,9 +1325,11 @@ func c03GenLong(ctx *core.Ctx) {
 	run("A256CBC-NOPAD", 4112, 0)
 	run("A192CBC-HS384", 4100, 5)
 	run("A192GCM", 4099, 5)
-	run("A256GCM", 8200, 0)
 	run("C20PKW", 16390, 5)
-	run("XC20PKW", 16450, 0)
+	if ctx.Thorough {
+		run("A256GCM", 8200, 0)
+		run("XC20PKW", 16450, 0)
+	}
 	// PKCS#7 with large block sizes and buffers around their multiples
 	for _, size := range []int{16, 128, 254, 255} {
 		for _, ln := range []int{size - 1, size, size + 1, 2*size - 1, 2 * size, 4096} {
@@ -1342,7 +1348,7 @@ func main() {
 		Header:   "From Kit Require Import C03.Check.\nFrom Coq Require Import Uint63.",
 		CaseType: "case",
 		CheckFn:  "run_cases",
-		Shard:    300,
+		Shard:    150,
 		Gen:      c03Gen,
 		RunInput: func(ctx *core.Ctx, raw json.RawMessage) error {
 			var in c03Input
